@@ -50,7 +50,7 @@ func init() {
 }
 
 func init() {
-	props["C01"] = []Stream{{"merge", genMerge}, {"merge-order", genMergeOrder}, {"loop", genLoop}}
+	props["C01"] = []Stream{{"merge", genMerge}, {"merge-order", genMergeOrder}, {"c01-load", genTxnFlavor("c01")}, {"loop", genLoop}}
 	props["C03"] = []Stream{{"loop", genLoop}, {"c11-oracle", genTxnFlavor("c11")}}
 	props["C09"] = []Stream{{"loop", genLoop}, {"loop-restart", genLoopRestart}}
 	props["C05"] = []Stream{{"loop-restart", genLoopRestart}, {"cleaner-commit", genCleanerCommit}, {"cleaner", genCleaner}}
